@@ -210,6 +210,11 @@ def run(chk):
             else:
                 d = kx + ky + kz
                 W = rng.normal(size=(N, d)) @ (np.eye(d) + 0.6 * rng.normal(size=(d, d))) + rng.normal(size=(1, d)) * 3
+                if name == "gaussian" and kz >= 2 and rng.random() < 0.3:
+                    # two nearly (not exactly) collinear conditioning columns, r between 1 - 1e-3 and 1 - 1e-7: still an unordered list of
+                    # conditioning variables (samples whose joint condition number exceeds 1e5 are skipped below, as everywhere)
+                    W[:, kx + ky + 1] = W[:, kx + ky] + 10.0 ** rng.uniform(-3.5, -1.5) * W[:, kx + ky].std() * rng.normal(size=N)
+                    chk.count("gaussian.near_collinear_Z_columns")
                 if name != "geometric_knn" and rng.random() < 0.35:
                     # any means / scales: offsets up to 1e6 times the spread, mixed column scales.  (Not for the geometric estimator:
                     # its local SVDs lose digits in proportion to offset/spread, which is conditioning of the input, not a defect;
@@ -417,6 +422,40 @@ def run(chk):
         chk.case(key=("pcw", route, W.tobytes(), kx, ky, kz), nontrivial=(kx == ky), sample=None)
         chk.count("poisson_conditional_widths.samples")
         chk.count(f"poisson_conditional_widths.kx{kx}_ky{ky}")
+    # purity on samples far from the origin (offset 1e3 .. 1e6 x spread), every estimator incl. the geometric one and its entropy function:
+    # only "equal arguments give equal results and the argument arrays are not modified" is checked here (no invariance comparison)
+    from scipy.spatial.distance import cdist as _cdist
+    from causationentropy.core.information.entropy import geometric_knn_entropy as _gke
+    for t in range(20 if quick else 400):
+        name = ["geometric_knn", "geometric_knn", "knn", "kde", "gaussian"][t % 5]
+        N = int(rng.integers(12, 25))
+        kx, ky, kz = int(rng.integers(1, 3)), int(rng.integers(1, 3)), int(rng.integers(1, 3))
+        d = kx + ky + kz
+        W = rng.normal(size=(N, d)) + np.sign(rng.normal(size=(1, d))) * 10.0 ** rng.uniform(3, 6, (1, d))
+        cond = bool(t % 2)
+        X, Y, Z = W[:, :kx].copy(), W[:, kx:kx + ky].copy(), (W[:, kx + ky:].copy() if cond else None)
+        keep = (X.copy(), Y.copy(), None if Z is None else Z.copy())
+        via = ["direct", "dispatcher"][(t // 5) % 2]
+        s_ = settings_for(name, N) if (cond or name != "geometric_knn") else {}
+        try:
+            v1 = call(name, via, X, Y, Z, s_)
+            v2 = call(name, via, X, Y, Z, s_)
+            if name == "geometric_knn":
+                with np.errstate(all="ignore"), lib.quiet():
+                    _gke(X, _cdist(X, X), 1)
+        except Exception as e:
+            chk.count(f"purity_far.rejected.{type(e).__name__}")
+            continue
+        chk.case(key=("purity_far", name, W.tobytes(), via, cond), nontrivial=True)
+        chk.count(f"purity_far.{name}")
+        dsc = {"estimator": name, "via": via, "conditional": cond, "settings": s_, "X": keep[0].tolist(), "Y": keep[1].tolist(),
+               "Z": None if keep[2] is None else keep[2].tolist()}
+        if not (np.array_equal(X, keep[0]) and np.array_equal(Y, keep[1]) and (Z is None or np.array_equal(Z, keep[2]))):
+            chk.violation("counterexample", f"{name} estimator ({via}) modified its argument arrays (sample far from the origin: column means "
+                          f"{np.abs(keep[0].mean(axis=0)).max():.3g})", dsc, {"site": f"{name}/{'Z present' if cond else 'Z absent'}", "transform": "purity"})
+        elif not (v1 == v2 or (math.isnan(v1) and math.isnan(v2))):
+            chk.violation("counterexample", f"{name} estimator ({via}) returned {v1} and then {v2} for equal arguments", dsc,
+                          {"site": f"{name}/{'Z present' if cond else 'Z absent'}", "transform": "repeat"})
     lib.correspond(chk, "poisson_conditional_model_on_original_and_transformed", IMPORTS, PCMI_TYPE, "check_pcmi_case",
                    pc_cases, pc_pf, lambda i: pc_desc[i], shard=12 if quick else 60, jobs=8, match_of=lambda i: pc_match[i])
     # ---- replay of the witness of C10_poisson_conditional_swap_refuted / _zorder_refuted (K2a / K2b): an 8-row count sample (Hadamard
